@@ -235,13 +235,26 @@ def r5(ctx, fs):
             ps = [canon(m, env, subst=False) for m in walk(n['slots']['body']) if m.get('k') == 'CXXMemberCallExpr' and (m.get('callee_name') or '').endswith('::push_back')]
             cond = any(m.get('k') in ('IfStmt', 'ContinueStmt', 'BreakStmt') for m in walk(n['slots']['body']))
             okp = len(ps) == 1 and ps[0][2] == 'smt::theory::cnfl' and ps[0][3] == ('!', ('lit', ('mcall', 'ratio::atom::get_sigma', v))) and not cond
-    iff = [n for n in f.nodes() if n.get('k') == 'IfStmt']
-    okt = False
-    for a in iff:
-        c = canon(a['slots']['cond'], env, subst=False)
-        if isinstance(c, tuple) and c[0] == '||' and ('!', ('mcall', 'smt::theory::backtrack_analyze_and_backjump', 'this')) in c and any(isinstance(x, tuple) and x[0] == '!' and isinstance(x[1], tuple) and x[1][:2] == ('mcall', 'ratio::solver::solve') for x in c[1:]) and \
-                any(m.get('k') == 'CXXThrowExpr' for m in walk(a['slots']['then'])):
-            okt = True
+    # decided on the atomic decisions of the paths: throw iff the back-jump fails or (it succeeds and) the re-solve fails; solve() only after a successful back-jump
+    okt = True
+    seen = set()
+    for p in enum_paths(f.body):
+        B = S = None
+        for kind, node, pol in p.conds:
+            if kind != 'if':
+                continue
+            c = canon(node, env, subst=False)
+            if isinstance(c, tuple) and c[:2] == ('mcall', 'smt::theory::backtrack_analyze_and_backjump'):
+                B = pol
+            elif isinstance(c, tuple) and c[:2] == ('mcall', 'ratio::solver::solve'):
+                if B is not True:
+                    okt = False         # re-solving without (or before) a successful back-jump
+                S = pol
+        seen.add((B, S))
+        want_throw = (B is False) or (B is True and S is False)
+        if (p.end == 'throw') != want_throw or B is None:
+            okt = False
+    okt = okt and seen == {(False, None), (True, False), (True, True)}
     ctx.instance(rid, [f.id, 'failure'], {'every_failed_atom_negated': okp, 'backjump_and_resolve_or_throw': okt})
     if not okp or not okt:
         ctx.finding(rid, f.id, 'failure', 'executor::failure must exclude every failed atom (lit(sigma, false)) and throw unless the conflict can be analysed and the problem re-solved', loc=f.loc)
@@ -297,29 +310,75 @@ def r7(ctx, fs):
                   'start scheduled only when start >= current_time, end always', floor=5)
     f = fs.fn(EX + 'build_timelines')
     env = LocalEnv(f)
-    conds = [canon(n['slots']['cond'], env) for n in f.nodes() if n.get('k') == 'IfStmt']
-    s = [show(c) for c in conds]
-    CT = 'executor::current_time'
-    facts = {
-        'active atoms only': any(c.startswith('(== True (mcall sat_core::value') and 'get_sigma' in c for c in s) or any('True' in c and 'get_sigma' in c and c.startswith('(== ') for c in s),
-        'past impulses skipped': any(c == '(< (mcall core::arith_value executor::slv (mcall context::operator arith_expr (mcall env::get atm (new basic_string<char> \'at\' (new allocator<char>))))) %s)' % CT for c in s) or
-        any(c.startswith('(< ') and "'at'" in c and c.endswith(CT + ')') for c in s),
-        'past intervals skipped (end < now)': any(c.startswith('(< ') and "'end'" in c and c.endswith(CT + ')') and "'start'" not in c for c in s),
-        'start scheduled only if not in the past': any(c.startswith('(<= ' + CT) and "'start'" in c for c in s),
-    }
-    ins = [canon(n, env) for n in f.nodes() if n.get('k') == 'CXXMemberCallExpr' and (n.get('callee_name') or '').endswith('::insert')]
-    si = [show(x) for x in ins]
-    facts['impulse in both maps, interval end always scheduled'] = sum(1 for x in si if 'executor::s_atms' in x) == 2 and sum(1 for x in si if 'executor::e_atms' in x) == 2 and sum(1 for x in si if 'executor::pulses' in x) == 3
+    CT = 'ratio::executor::current_time'
+    loops = [n for n in f.nodes() if n.get('k') == 'CXXForRangeStmt' and any((m.get('callee_name') or '').endswith('::insert') for m in walk(n['slots']['body']))]
+    if not loops:
+        raise AnalysisBroken('%s: the loop over the atoms was not found' % f.id)
+    loop = loops[-1] if len(loops) == 1 else sorted(loops, key=lambda n: -len(list(walk(n))))[-1]
+    # innermost loop that contains all the inserts
+    loop = [l for l in loops if sum(1 for m in walk(l['slots']['body']) if (m.get('callee_name') or '').endswith('::insert')) ==
+            max(sum(1 for m in walk(x['slots']['body']) if (m.get('callee_name') or '').endswith('::insert')) for x in loops)][-1]
+    facts = {'active atoms only': True, 'past impulses skipped': True, 'past intervals skipped (end < now)': True, 'start scheduled only if not in the past': True,
+             'impulse in both maps, interval end always scheduled': True}
+    n_ins_paths = 0
+    seen_kinds = set()
+    for p in enum_paths(loop['slots']['body']):
+        A = {}
+        for kind, node, pol in p.conds:
+            if kind != 'if':
+                continue
+            c = canon(node, env)
+            sc = show(c)
+            if isinstance(c, tuple) and c[0] in ('==', '!=') and 'True' in sc and 'get_sigma' in sc and 'sat_core::value' in sc:
+                A['act'] = (c[0] == '==') == pol
+            elif isinstance(c, tuple) and c[0] == 'mcall' and str(c[1]).endswith('::is_impulse'):
+                A['imp'] = pol
+            elif isinstance(c, tuple) and c[0] == 'mcall' and str(c[1]).endswith('::is_interval'):
+                A['int'] = pol
+            elif isinstance(c, tuple) and c[0] in ('<', '<=') and len(c) == 3 and CT in (c[1], c[2]):
+                other = c[2] if c[1] == CT else c[1]
+                so = show(other)
+                which = 'at' if "'at'" in so else ('end' if "'end'" in so else ('start' if "'start'" in so else None))
+                if which is None:
+                    continue
+                # value REL now, as "value < now" (past) true/false
+                if c[1] == CT:      # now < v  /  now <= v
+                    past = (not pol) if c[0] == '<=' else None      # now <= v  false  ->  v < now
+                    notpast = pol if c[0] == '<=' else None
+                else:               # v < now / v <= now
+                    past = pol if c[0] == '<' else None
+                    notpast = (not pol) if c[0] == '<' else None
+                if past is True:
+                    A[which + '_past'] = True
+                elif past is False or notpast is True:
+                    A[which + '_past'] = False
+        ins = [show(canon(m, env)) for st in p.stmts for m in walk(st) if m.get('k') == 'CXXMemberCallExpr' and (m.get('callee_name') or '').endswith('::insert')]
+        S = sum(1 for x in ins if 'executor::s_atms' in x)
+        E = sum(1 for x in ins if 'executor::e_atms' in x)
+        if ins:
+            n_ins_paths += 1
+            if A.get('act') is not True:
+                facts['active atoms only'] = False
+        if A.get('at_past') is True and ins:
+            facts['past impulses skipped'] = False
+        if A.get('end_past') is True and ins:
+            facts['past intervals skipped (end < now)'] = False
+        if any('executor::s_atms' in x and "'start'" in x for x in ins) and A.get('start_past') is not False:
+            facts['start scheduled only if not in the past'] = False
+        if A.get('act') is True and A.get('imp') is True and A.get('at_past') is False:
+            seen_kinds.add('imp')
+            if not (S == 1 and E == 1):
+                facts['impulse in both maps, interval end always scheduled'] = False
+        if A.get('act') is True and A.get('imp') is False and A.get('int', True) is True and A.get('end_past') is False:
+            seen_kinds.add('int')
+            if E != 1 or S != (1 if A.get('start_past') is False else 0):
+                facts['impulse in both maps, interval end always scheduled'] = False
+    if n_ins_paths == 0 or seen_kinds != {'imp', 'int'}:
+        facts['impulse in both maps, interval end always scheduled'] = False
     for k, v in facts.items():
         ctx.instance(rid, [f.id, k], {'fact': k, 'holds': v})
         if not v:
-            ctx.finding(rid, f.id, k, 'executor::build_timelines: "%s" does not hold (conditions: %s)' % (k, [c[:90] for c in s]), loc=f.loc)
-    # the end of an interval is scheduled unconditionally (after the past-test), the start conditionally
-    starts = [n for n in f.nodes() if n.get('k') == 'CXXMemberCallExpr' and (n.get('callee_name') or '').endswith('::insert') and 's_atms' in show(canon(n, env, subst=False)) and "start" in show(canon(n, env, subst=False))]
-    for n in starts:
-        g = [show(canon(a['slots']['cond'], env)) for a in f.ancestors(n) if a.get('k') == 'IfStmt']
-        if not any(c.startswith('(<= ' + CT) and "'start'" in c for c in g):
-            ctx.finding(rid, f.id, 'start-guard', 'executor::build_timelines schedules the start of an interval without testing that it is not in the past', node=n)
+            ctx.finding(rid, f.id, k, 'executor::build_timelines: "%s" does not hold' % k, loc=f.loc)
 
 
 def r8(ctx, fs):
